@@ -195,7 +195,7 @@ def gen_dd(rng, big=False):
     w64 = rng.randint(0, 1)
     be = rng.randint(0, 1)
     pad = rng.randint(0, 1) if not w64 else 0
-    ver = rng.choice([1, 2, 3, 4, 5, 6, 6, 6])
+    ver = rng.choice([0, 1, 2, 3, 4, 5, 6, 6, 6])
     shift = rng.choice([12, 12, 12, 12, 13, 14, 16] if not big else [12, 13, 14, 16, 16, 18])
     pgsz = 1 << shift
     two = 1 if rng.random() < 0.8 else 0
@@ -220,10 +220,10 @@ def gen_dd(rng, big=False):
             flags |= rng.choice([4, 0x20])                                # zlib wins
         entries[p] = (flags, payload, content)
         meths[p] = m
-    sub = rng.choice([1, 1, 2])
+    sub = rng.choice([1, 1, 2]) if ver else rng.choice([0, 1])
     vmci = b""
     notes = b""
-    if ver == 3 or (not w64 and pad and ver >= 3) or rng.random() < 0.5:
+    if ver == 3 or (not w64 and pad and ver >= 3) or (ver and rng.random() < 0.5):
         vmci = b"OSRELEASE=5.14.21-test\nCRASHTIME=12345\n"
     if ver >= 4 and rng.random() < 0.6:
         notes = elf_note(be, b"VMCOREINFO", 0, vmci or b"CRASHTIME=1\n")
